@@ -74,9 +74,7 @@ func runOne(t *testing.T, c *Case, work, sched *choice.Source, out *wproto.Out, 
 		b, _ := json.Marshal(c)
 		out.SetAdd("distinct_nontrivial", wproto.Hash(b))
 	}
-	if id%23 == 0 {
-		out.Sample(map[string]any{"case": id, "kind": c.Kind, "what": st.Desc, "sched_steps": st.Steps, "preemptions": st.Preempt, "tasks": st.Tasks}, 10)
-	}
+	out.SampleKind(c.Kind, map[string]any{"case": id, "kind": c.Kind, "what": st.Desc, "sched_steps": st.Steps, "preemptions": st.Preempt, "tasks": st.Tasks}, 1, 12)
 	out.Tick(32)
 }
 
